@@ -1,7 +1,7 @@
 CHECKS = [
     entry("C26", "transmitx",
           technique="property-based testing (rapid): generated event streams and scripted server fault sequences against the real DirectTransmission in a synctest bubble (virtual time, in-memory net.Pipe network); oracle = independent msgpack decoding of what the servers received + reference accounting",
-          quick=dict(checks=2500, budget_s=40),
+          quick=dict(checks=2000, budget_s=45),
           thorough=dict(checks=6000, shards=16, budget_s=420),
           level_text="Generated enqueue schedules (aimed at the stale-dispatch ticker grid), destinations, event sizes around the 1 MB and 5 MB limits and per-batch scripted answers (per-event errors, short/undecodable bodies, 4xx/5xx, 429/503 with many Retry-After forms, time-outs, slow answers, hang-ups, dead hosts). Every request the fake servers received is decoded independently and each event is accounted for: one batch, own host/key/dataset, limits, at most two attempts, dispatch within 1.25 x BatchTimeout in exact virtual time, flush on Stop, queued_items back to zero. Exploration: does not prove absence.",
           level_note="Trusts testing/synctest virtual time and net.Pipe in place of the wall clock and TCP; events are enqueued from one goroutine (concurrent enqueue is C35's subject); the 5 MB bound is judged on the uncompressed body; requests to a destination that received a delaying answer are excused from the timing bound."),
